@@ -180,6 +180,17 @@ func (w *World) accepted(ls *lisState, nfd int, sa syscall.Sockaddr, now time.Du
 		w.inject(append([]byte(nil), b...), now+time.Duration(ls.L.SynAckDelayUs+ls.L.SynAckDupUs)*time.Microsecond, PktOrigin{Handshake: true, Form: "handshake", Copy: 1})
 		w.stat("fault.synack-retransmitted")
 	}
+	if ls.L.FinAfterUs > 0 {
+		fin := codec.TCPSeg{SrcPort: ls.Addr.Port(), DstPort: c.remote.Port(), Seq: ls.L.ServerSeq + 1, Ack: c.isn,
+			Flags: codec.FlagFIN | codec.FlagACK, Window: 65535}
+		if ls.L.Timestamps && !ls.L.TruncTS {
+			fin.Options = cat(nop, nop, codec.TimestampOption(555900, 1234))
+		}
+		ft := codec.BuildTCP(ls.Addr.Addr(), c.remote.Addr(), fin)
+		fb := codec.BuildIPv4(ls.Addr.Addr(), c.remote.Addr(), codec.ProtoTCP, 64, codec.V4Opts{Flags: 2}, ft)
+		w.inject(fb, now+time.Duration(ls.L.SynAckDelayUs+ls.L.FinAfterUs)*time.Microsecond, PktOrigin{Form: "fin"})
+		w.stat("fault.target-half-closes")
+	}
 }
 
 // sweepListeners accepts whatever is left in the accept queues at the end of a run: connections
